@@ -408,14 +408,16 @@ def finish(ctx, lean, extra_trusted=(), open_clauses=(), rule="", assumptions=()
 
 def shrink_all(ctx, shrink, evaluate, budget=300):
     """greedy minimisation of the first oracle failure / mismatch (replay files then hold small cases)"""
+    t_end = time.time() + (90 if not ctx.thorough else 300)      # minimisation is a convenience: never more than this
+
     def minimise(case, still_bad):
         steps = 0
         improved = True
-        while improved and steps < budget:
+        while improved and steps < budget and time.time() < t_end:
             improved = False
             for cand in shrink(case):
                 steps += 1
-                if steps >= budget:
+                if steps >= budget or time.time() >= t_end:
                     break
                 sub = Ctx(ctx.prop, ctx.tier, ctx.seed)
                 try:
